@@ -245,7 +245,7 @@ def scan_assumptions(lines, origin):
                 name = m2.group(1) if m2 else c.strip()
             else:
                 for q in range(k, min(k + 6, len(lines))):
-                    m3 = re.search(r'\bfn (\w+)', lines[q])
+                    m3 = re.search(r'\b(?:fn|const) (\w+)', lines[q])
                     if m3:
                         name = m3.group(1)
                         break
